@@ -15,7 +15,8 @@ from common import coq_str, coq_list, coq_z, enc_str
 
 THEOREMS = ["C07_resolve_from", "C07_path", "C07_constraints", "C07_sound", "C07_unique", "C07_resolve_sound",
             "C07_err_dangling", "C07_err_childless", "C07_err_nonnumeric", "C07_err_unknown_id", "C07_err_resolve",
-            "C07_errors_only", "C07_int_of_str", "C07_value_objects", "C07_example_wf", "C07_example"]
+            "C07_errors_only", "C07_int_of_str", "C07_value_objects", "C07_after_mutation", "C07_example_mutation",
+            "C07_example_wf", "C07_example"]
 
 PRELUDE = ("From Coq Require Import List ZArith String.\n"
            "From Basyx Require Import gen.Gen_RefKeys model.Refs model.RefsObs.\nOpen Scope string_scope.")
@@ -267,7 +268,8 @@ def gen_mutations(rng, aprov, depth, count):
             cands.append(("store", si, None, None, s))
         if len(aprov) >= 2:
             cands += [("prov", None, None, None, None)] * 3
-        c = rng.choice(cands)
+        lists = [x for x in cands if x[0] == "list"]
+        c = rng.choice(lists) if lists and rng.random() < .45 else rng.choice(cands)
         m = None
         if c[0] == "list":
             _, si, ri, p, n = c
@@ -709,12 +711,46 @@ def value_object_oracle(rng, n, count):
 
 # ------------------------------------------------------------------ driver
 
-def shrink_queries(aprov, queries, facts, sig):
-    for q in queries:
-        _, f = run_queries(aprov, [q], facts)
-        if any(s == sig for s, _ in f):
-            return [q]
-    return queries
+def shrink_history(aprov, rounds, facts, sig, k):
+    """keep the rounds up to the failing one; one query in the failing round; drop earlier queries and single
+    mutations as long as the same signature still fails"""
+    import copy
+
+    def failing(rs):
+        try:
+            return any(s == sig for s, _, _ in run_history(aprov, rs, facts)[1])
+        except Exception:
+            return False
+    rs = copy.deepcopy([{"mut": r["mut"], "queries": list(r["queries"])} for r in rounds[:k + 1]])
+    for q in rs[k]["queries"]:
+        cand = rs[:k] + [{"mut": rs[k]["mut"], "queries": [q]}]
+        if failing(cand):
+            rs = cand
+            break
+    for j in range(k):
+        cand = copy.deepcopy(rs)
+        cand[j]["queries"] = []
+        if failing(cand):
+            rs = cand
+        else:
+            for q in rs[j]["queries"]:
+                cand[j]["queries"] = [q]
+                if failing(cand):
+                    rs = copy.deepcopy(cand)
+                    break
+    changed = True
+    while changed:
+        changed = False
+        for j in range(len(rs)):
+            for i in range(len(rs[j]["mut"])):
+                cand = copy.deepcopy(rs)
+                del cand[j]["mut"][i]
+                if failing(cand):
+                    rs, changed = cand, True
+                    break
+            if changed:
+                break
+    return rs
 
 
 def run(chk):
@@ -762,38 +798,57 @@ def run(chk):
         int_terms.append(f"({coq_str_any(s)}, {coq_list(coq_z(x) for x in r + [int(s.isnumeric())])})")
     str_terms = [f"({i}%nat, {coq_list(coq_z(x) for x in enc_str(str(i)))})" for i in list(range(0, 130)) + [999, 1000, 4095]]
     # ---- trees
-    cases, terms = [], []
+    import copy
+    cases, terms, origin = [], [], []
     stats = {}
     corpus = os.path.join(common.VERIF, "corpus", "C07")
     if os.path.isdir(corpus):
         for fn in sorted(os.listdir(corpus)):
             c = json.load(open(os.path.join(corpus, fn)))
-            cases.append((c["prov"], [tuple(q) for q in c["queries"]]))
+            rounds = c.get("rounds") or [{"mut": [], "queries": c["queries"]}]
+            cases.append((c["prov"], [{"mut": r["mut"], "queries": [tuple(q) for q in r["queries"]]} for r in rounds]))
     for _ in range(ncases):
         nstores = rng.choice([1, 1, 2, 3])
-        aprov = rt.gen_provider(rng, rng.randint(2, depth), nstores, stats)
-        cases.append((aprov, gen_queries(rng, aprov, facts, per_node, chk.count)))
-    for aprov, queries in cases:
-        obs, fails = run_queries(aprov, queries, facts)
+        d = rng.randint(2, depth)
+        aprov = rt.gen_provider(rng, d, nstores, stats)
+        rounds = [{"mut": [], "queries": gen_queries(rng, aprov, facts, per_node, chk.count)}]
+        if rng.random() < 0.6:
+            # history: mutate the live lists / containers / stores / provider arrangement between rounds; the
+            # queries of a later round are generated for (and the model evaluated on) the provider as it is then
+            cur = copy.deepcopy(aprov)
+            for _ in range(rng.randint(1, 2)):
+                muts = gen_mutations(rng, cur, d, chk.count)
+                rounds.append({"mut": muts, "queries": gen_queries(rng, cur, facts, max(1, per_node - 1), chk.count)})
+        cases.append((aprov, rounds))
+    for ci, (aprov, rounds) in enumerate(cases):
+        out, fails = run_history(aprov, rounds, facts)
         nn = sum(rt.size(t) for s in aprov for t in s)
-        chk.seen((aprov, queries), nontrivial=nn >= 3)
+        chk.seen((aprov, rounds), nontrivial=nn >= 3)
         chk.count(f"stores={len(aprov)}")
+        chk.count(f"rounds={len(rounds)}")
         chk.count(f"nodes={'1-5' if nn <= 5 else '6-15' if nn <= 15 else '16-40' if nn <= 40 else '>40'}")
         chk.count(f"height={max([rt.height(t) for s in aprov for t in s] or [0])}")
-        for o in obs:
-            chk.count("outcome=" + ("element" if o[0] == 0 else "ctor-raises" if o[0] == 2 else
-                                    {1: "KeyError", 2: "TypeError", 3: "ValueError", 6: "UnexpectedTypeError"}.get(o[1], str(o[1]))
-                                    if o[0] == 1 else "other"))
+        for k, (ap_k, obs) in enumerate(out):
+            for o in obs:
+                chk.count("outcome=" + ("element" if o[0] == 0 else "ctor-raises" if o[0] == 2 else
+                                        {1: "KeyError", 2: "TypeError", 3: "ValueError", 6: "UnexpectedTypeError"}.get(o[1], str(o[1]))
+                                        if o[0] == 1 else "other"))
+            terms.append(coq_case(ap_k, rounds[k]["queries"], obs, cls_index))
+            origin.append((ci, k))
         seen_sigs = set()
-        for sig, msg in fails:
+        for sig, msg, k in fails:
             if sig in seen_sigs:
                 continue
             seen_sigs.add(sig)
-            small = shrink_queries(aprov, queries, facts, sig)
-            chk.fail(sig, msg, {"prov": aprov, "queries": small, "how": "tools/c07.py run_queries(prov, queries, facts)"})
-        terms.append(coq_case(aprov, queries, obs, cls_index))
-        if len(chk.samples) < 3 and nn >= 6:
-            chk.samples.append({"provider": aprov, "first_queries": queries[:4], "sdk_observations": obs[:4]})
+            # shrinking re-runs the history many times: do it for the first few signatures of a run only
+            chk._n_shrunk = getattr(chk, "_n_shrunk", 0) + 1
+            small = shrink_history(aprov, rounds, facts, sig, k) if chk._n_shrunk <= 8 else rounds[:k + 1]
+            chk.fail(sig, msg, {"prov": aprov, "rounds": small,
+                                "how": "tools/c07.py run_history(prov, rounds, facts): the mutations of a round are applied "
+                                       "to the live objects before its queries"})
+        if len(chk.samples) < 3 and nn >= 6 and len(rounds) > 1:
+            chk.samples.append({"provider": aprov, "mutations_before_round_2": rounds[1]["mut"],
+                                "first_queries": rounds[0]["queries"][:3], "sdk_observations": out[0][1][:3]})
     for c, n in stats.items():
         chk.count(f"class={c}", n)
     for sig, msg in value_object_oracle(rng, 40 if quick else 150, chk.count):
@@ -803,23 +858,29 @@ def run(chk):
     bad2, errs2 = common.run_mismatch_shards("C07int", PRELUDE, int_terms, "check_int", shard=4000)
     bad3, errs3 = common.run_mismatch_shards("C07str", PRELUDE, str_terms, "check_str", shard=4000)
     chk.traces = n1 - len(bad)
-    chk.cov["queries_compared"] = sum(len(q) for _, q in cases)
+    chk.cov["queries_compared"] = sum(len(r["queries"]) for _, rs in cases for r in rs)
+    chk.cov["rounds_compared"] = len(terms)
     chk.cov["int_str_literals_compared"] = len(int_terms) + len(str_terms)
     for e in errs + errs2 + errs3:
         chk.tie_broken("correspondence-run", e)
     if bad:
-        aprov, queries = cases[bad[0]]
-        obs, _ = run_queries(aprov, queries, facts)
+        ci, k = origin[bad[0]]
+        aprov, rounds = cases[ci]
+        out, _ = run_history(aprov, rounds, facts)
+        ap_k, obs = out[k]
+        queries = rounds[k]["queries"]
         first = None
-        b, e = common.run_mismatch_shards("C07s", PRELUDE, [coq_case(aprov, [q], [o], cls_index) for q, o in zip(queries, obs)],
+        b, e = common.run_mismatch_shards("C07s", PRELUDE, [coq_case(ap_k, [q], [o], cls_index) for q, o in zip(queries, obs)],
                                           "check_case", shard=50)
         if b:
             first = (queries[b[0]], obs[b[0]])
         model = None
         if first:
-            prov = coq_list(coq_list(rt.coq_tree(t, cls_index) for t in s) for s in aprov)
+            prov = coq_list(coq_list(rt.coq_tree(t, cls_index) for t in s) for s in ap_k)
             model = common.coq_eval("C07", PRELUDE, f"obs {prov} ({coq_query(first[0])})")
-        chk.tie_broken("correspondence", {"n_disagreements": len(bad), "prov": aprov, "query": first and first[0],
+        chk.tie_broken("correspondence", {"n_disagreements": len(bad), "initial_prov": aprov,
+                                          "mutations_so_far": [r["mut"] for r in rounds[:k + 1]], "round": k,
+                                          "prov_at_that_time": ap_k, "query": first and first[0],
                                           "sdk_observation": first and first[1], "model_observation": model})
     if bad2:
         chk.tie_broken("correspondence-int", {"n": len(bad2), "first": int_terms[bad2[0]]})
@@ -852,18 +913,24 @@ def finish(chk):
                            "lists), Entity, Operation (3 variable sets), AnnotatedRelationshipElement and all 9 leaf classes; "
                            "for EVERY referable: from_referable+resolve, and per_node perturbed key chains (prefix, trailing key, "
                            "unknown id_short, index out of range / non-numeric / Python-int forms, wrong root, wrong first key "
-                           "type, wrong expected type, key type noise) and id_short paths from a random ancestor; "
+                           "type, wrong expected type, key type noise; behind File/Blob a trailing FRAGMENT_REFERENCE key) and "
+                           "id_short paths from a random ancestor; in ~60% of the cases 1-2 further rounds after 1-3 mutations "
+                           "of the live objects (list insert/append/extend/pop/remove/del slice/setitem/set slice/reorder, "
+                           "add_referable/remove_referable, store add/discard/move, multiplexer providers removed/reversed/"
+                           "moved), every referable queried again and the model evaluated on the provider as it is then; "
                            "non-trivial = provider with >= 3 nodes; distinct by (provider, queries)")
 
 
 def replay(path):
     r = json.load(open(path))
     rp = r.get("replay") or {}
-    if "queries" in rp:
+    if "rounds" in rp or "queries" in rp:
         from py2coq import refkeys
         facts = refkeys.facts()
-        obs, fails = run_queries(rp["prov"], [tuple(q) for q in rp["queries"]], facts)
-        print("observations:", obs)
+        rounds = rp.get("rounds") or [{"mut": [], "queries": rp["queries"]}]
+        rounds = [{"mut": r["mut"], "queries": [tuple(q) for q in r["queries"]]} for r in rounds]
+        out, fails = run_history(rp["prov"], rounds, facts)
+        print("observations:", [o for _, o in out])
         print("oracle:", fails)
         return 1 if fails else 0
     print(json.dumps(r, indent=1)[:3000])
